@@ -35,7 +35,7 @@ def sim_run(pexpect, case):
     events = list(case['events'])
     stdout, child = [], []
     modes = []
-    c = pexpect.spawn(None, timeout=5, use_poll=case['use_poll'])
+    c = pexpect.spawn(None, timeout=5, use_poll=case['use_poll'], encoding='utf-8' if case.get('unicode') else None)
 
     state = {'dead': False}
 
@@ -52,11 +52,11 @@ def sim_run(pexpect, case):
     c.ptyproc = FP()
     c.child_fd, c.closed, c.pid = CHILD_FD, False, 4242
     c.STDIN_FILENO, c.STDOUT_FILENO = STDIN_FD, STDOUT_FD
-    c.buffer = case['pending']
+    c.buffer = case['pending'].decode('ascii') if case.get('unicode') else case['pending']
     # sys.stdout is a buffered stream on top of descriptor 1, the copy loop writes to the descriptor directly: what the
     # user sees is what has reached the descriptor, in that order
     pybuf = []
-    c.write_to_stdout = lambda b: pybuf.append(bytes(b))
+    c.write_to_stdout = lambda b: pybuf.append(b.encode('utf-8') if isinstance(b, str) else bytes(b))
 
     class Out:
         def flush(self_):
@@ -108,6 +108,7 @@ def sim_run(pexpect, case):
     ps.tty.tcsetattr = lambda fd, when, mode: modes.append(('restore', mode))
     fin = FILTERS[case['fin']]
     fout = FILTERS[case['fout']]
+    # the escape character as the API takes it: a one-character string (code points up to 255 stand for that byte)
     esc = None if case['esc'] is None else chr(case['esc'])
     try:
         c.interact(escape_character=esc, input_filter=fin, output_filter=fout)
@@ -144,17 +145,17 @@ def sim_run(pexpect, case):
 
 
 def gen_case(rng):
-    esc = rng.choice([29, 29, 29, None, 120])
+    esc = rng.choice([29, 29, 29, None, 120, 0x9d, 0xe9, 0xff])
     exits = rng.random() < 0.45          # sessions in which the child terminates at some point
     events = []
     for _ in range(rng.randint(0, 6)):
         x = rng.random()
         if x < 0.45:
-            events.append(('out', bytes(rng.choice(b'abxyz\n\x1d') for _ in range(rng.randint(1, 5)))))
+            events.append(('out', bytes(rng.choice(b'abxyz\n\x1d\xff\xc3\xa9') for _ in range(rng.randint(1, 5)))))
         elif x < 0.52 and exits:
             events.append(('exit',))
         elif x < 0.9:
-            d = bytes(rng.choice(b'abcxq\r') for _ in range(rng.randint(1, 5)))
+            d = bytes(rng.choice(b'abcxq\r\xfe\xc3\xa9') for _ in range(rng.randint(1, 5)))
             if esc is not None and rng.random() < 0.35:
                 k = rng.randint(0, len(d))
                 d = d[:k] + bytes([esc]) + d[k:]
@@ -164,7 +165,9 @@ def gen_case(rng):
         else:
             events.append(('eof',))
     return {'esc': esc, 'fin': rng.choice([0, 0, 0, 1, 2]), 'fout': rng.choice([0, 0, 0, 1, 2]), 'events': events,
-            'pending': bytes(rng.choice(b'pq') for _ in range(rng.choice([0, 0, 3]))), 'use_poll': rng.random() < 0.4, 'again': rng.random() < 0.3}
+            'pending': bytes(rng.choice(b'pq') for _ in range(rng.choice([0, 0, 3]))), 'use_poll': rng.random() < 0.4, 'again': rng.random() < 0.3,
+            # a text-mode object (strict decoding, the default): interact() still pipes BYTES, whatever they are
+            'unicode': rng.random() < 0.35}
 
 
 def coq_case(case):
